@@ -12,7 +12,7 @@ GATES = {
     'quick': {'empty_indent_by': 40, 'cases_in_small_blocks': 50, 'evaluations': 6000, 'created_meta_items': 1800, 'created_comments': 1200, 'raw_items_inserted': 600, 'from_value_meta': 400,
               'entry_classes_seen': 13, 'layout:none': 300, 'layout:uniform': 300, 'layout:tabs': 100, 'layout:with-comments': 200,
               'layout:non-uniform': 100, 'meta_view_read_before_indent_by': 1500, 'reconfigured_between_edits': 1000,
-              'meta_cleared_before_insert': 200, 'existing_comment_updates': 150},
+              'meta_cleared_before_insert': 200, 'existing_comment_updates': 150, 'existing_comment_reindented_through_raw_text': 40},
     'thorough': {'evaluations': 120000, 'entry_classes_seen': 13},
 }
 RULE = ('case = one entry of one of the 12 entry classes (or a posting inside a transaction) parsed from text with a chosen meta layout '
@@ -167,12 +167,21 @@ def run_case(col, r, idx):
                     # an existing comment gets a new text: its line keeps its own indentation
                     old = getattr(m, 'raw_' + side)
                     old_indent = old.indent
+                    if r.random() < 0.4:
+                        # ... also when the comment has just been moved to another indentation by rewriting its raw text
+                        old_indent = r.choice(['\t', '  ', '      ', '\t\t'])
+                        old.raw_text = '\n'.join(old_indent + ln.lstrip(' \t') for ln in old.raw_text.split('\n'))
+                        col.count('existing_comment_reindented_through_raw_text')
                     val = r.choice(['', 'new text', 'two\nlines', ''])
                     setattr(m, side, val)
                     cm = getattr(m, 'raw_' + side)
                     col.ev()
                     col.count('existing_comment_updates')
                     col.nontrivial(text, path, 'comment-update', kind, side, val, step)
+                    if cm is not None and any(not ln.startswith(old_indent + ';') for ln in cm.raw_text.split('\n')):
+                        col.violation(f'existing-comment-line-indent-changed:{kind}:{side}', f'{side} := {val!r} on a {kind} whose comment lines were indented '
+                                      f'{old_indent!r}: the comment now reads {cm.raw_text!r}', dict(wit, after=common.pr(f)))
+                        return
                     if cm is None or cm.indent != old_indent:
                         col.violation(f'existing-comment-indent-changed:{kind}:{side}', f'{side} := {val!r} on a {kind} whose comment was indented '
                                       f'{old_indent!r}: the comment line is now indented {getattr(cm, "indent", None)!r}', dict(wit, after=common.pr(f)))
